@@ -58,6 +58,7 @@ type verifState struct {
 	rdSnapIdx   uint64 // index of the Ready's snapshot (0 = none)
 	savedMax    uint64 // largest index this node has saved to its WAL (or read from it at restart)
 	walLast     uint64 // last entry index the WAL returned at restart
+	storage     raft.IExtRaftStorage // raft's storage (verifStorage), read-only
 
 	out *os.File
 }
@@ -145,6 +146,15 @@ func verifReady(isNewLeader bool, rd *raft.Ready) {
 
 // verifWalRead / verifReplayed (startRaft, replayWAL): what the WAL held when the process
 // started and what raft's log holds after the replay, reported as one line.
+// verifStorage (startRaft): raft's storage, so that the hook after raftStorage.Append can see
+// whether the entries of the Ready really are in raft's log.
+func verifStorage(rs raft.IExtRaftStorage) {
+	s := verifS
+	s.mu.Lock()
+	s.storage = rs
+	s.mu.Unlock()
+}
+
 func verifWalRead(ents []raftpb.Entry) {
 	s := verifS
 	s.mu.Lock()
@@ -184,6 +194,17 @@ func verifPoint(name string) {
 	case "persist.snap":
 		if s.rdSnapIdx > s.savedMax {
 			s.savedMax = s.rdSnapIdx
+		}
+	case "storage.appended":
+		// processReady is past raftStorage.Append (and, for a Ready with a snapshot, past ApplySnapshot):
+		// raft's log must end at or after the last new entry of this Ready
+		if s.rdSnapIdx > 0 && s.rdEntsLast > 0 {
+			s.report("SNAPENTS snap=%d ents_last=%d", s.rdSnapIdx, s.rdEntsLast) // counted as evidence
+		}
+		if s.rdEntsLast > 0 && s.storage != nil {
+			if li, err := s.storage.LastIndex(); err == nil && li < s.rdEntsLast {
+				s.report("APPENDED short ents_last=%d raft_last=%d snap=%d", s.rdEntsLast, li, s.rdSnapIdx)
+			}
 		}
 	case "ready.published":
 		// entries handed to the apply loop that this node has not saved to its WAL yet (a Ready that
